@@ -1028,14 +1028,24 @@ sparse(PyTypeObject *type, PyObject *args, PyObject *kwds)
       }
     }
 
-    ret = SpMatrix_New(SP_NROWS(Objx), SP_NCOLS(Objx), nnz, SP_ID(Objx));
+    if (id != -1 && SP_ID(Objx) > id) PY_ERR_TYPE("illegal type conversion");
+    if (id == -1) id = SP_ID(Objx);
+
+    ret = SpMatrix_New(SP_NROWS(Objx), SP_NCOLS(Objx), nnz, id);
     if (!ret) return NULL;
 
     nnz = 0;
     for (jk=0; jk<SP_NCOLS(Objx); jk++) {
       for (ik=SP_COL(Objx)[jk]; ik<SP_COL(Objx)[jk+1]; ik++) {
         if ((SP_ID(Objx) == DOUBLE) && (SP_VALD(Objx)[ik] != 0.0)) {
-          SP_VALD(ret)[nnz] = SP_VALD(Objx)[ik];
+          if (id == DOUBLE)
+            SP_VALD(ret)[nnz] = SP_VALD(Objx)[ik];
+          else
+#ifndef _MSC_VER
+            SP_VALZ(ret)[nnz] = SP_VALD(Objx)[ik];
+#else
+            SP_VALZ(ret)[nnz] = _Cbuild(SP_VALD(Objx)[ik], 0.0);
+#endif
           SP_ROW(ret)[nnz++] = SP_ROW(Objx)[ik];
           SP_COL(ret)[jk+1]++;
         }
